@@ -56,12 +56,15 @@ def lineIntersection (eps : α) (p1 v1 p2 v2 : P α) : Option (P α) :=
 `self = (p1, v1)`, `other = (p2, v2)` -/
 abbrev Ix (α : Type) := P α → P α → P α → P α → Option (P α)
 
-/-- `get_clip_intersections(previous_normal, next_normal, normal, clip_distance)` -/
+/-- `get_clip_intersections(previous_normal, next_normal, normal, clip_distance)`; without an
+intersection the side point stays where it is (`.unwrap_or_else(|| previous_normal.to_point())`,
+`.unwrap_or_else(|| next_normal.to_point())`: /repo fix ede203df; before it the fall-back was the
+unscaled `normal`) -/
 def clipIntersections (ix : Ix α) (prevN nextN normal : P α) (clipDistance : α) : P α × P α :=
   let cp := (normalize normal).smul clipDistance
   let cv := perp normal
-  ((ix cp cv prevN (perp prevN)).getD normal,
-   (ix cp cv nextN (perp nextN)).getD normal)
+  ((ix cp cv prevN (perp prevN)).getD prevN,
+   (ix cp cv nextN (perp nextN)).getD nextN)
 
 /-! ## compute_join_side_positions_fixed_width -/
 
